@@ -319,9 +319,8 @@ def _escape(ctx):
 
 def _cache_purity(ctx):
     fi = ctx.repo.func('TRS.trs_to_dict')
-    ctx.check(any(norm(d) == 'staticmethod' for d in fi.node.decorator_list), 'PURITY',
-              'trs_to_dict is a staticmethod (no instance state)',
-              detail_bad="trs_to_dict gained access to instance state", key="PURITY|trs_to_dict|static")
+    ctx.shape(any(norm(d) == 'staticmethod' for d in fi.node.decorator_list), 'PURITY',
+              'trs_to_dict is a staticmethod (no instance state)')
     bad = []
     for n in walk_local(fi.node):
         if isinstance(n, ast.Attribute) and isinstance(n.value, ast.Name) and isinstance(n.ctx, ast.Load):
